@@ -26,21 +26,44 @@ def warm():
     perm_gen(wd, 3)
 
 
+def closing(terms, op, prefix, extra=None):
+    """The closing identity action `op` applied to TLC-generated terms (one more step of the same machine)."""
+    return [{"id": f"{prefix}{t['id']}", "d": t["d"] + 1, "m": dict({"op": op, "a": t["m"]}, **(extra or {}))} for t in terms]
+
+
 def terms_for(wd, pid, tier):
     rng = random.Random(1300 + seed())
     d1 = xc.gen(wd, 3, "full", 1)[0]
     d2 = xc.gen(wd, 3, "small", 2)[0]
     want = OPS[pid]
-    t1 = [t for t in xc.with_ids(d1["terms"], "d1-") if t["m"]["op"] in want]
-    t2 = [t for t in xc.with_ids(d2["terms"], "d2-") if t["d"] == 2 and t["m"]["op"] in want]
-    cap = {"C13": 9000, "C10": 4000, "C12": 4000, "C11": 2500}[pid] * (1 if tier == "quick" else 6)
+    all1 = xc.with_ids(d1["terms"], "d1-")
+    all2 = [t for t in xc.with_ids(d2["terms"], "d2-") if t["d"] == 2]
+    t1 = [t for t in all1 if t["m"]["op"] in want]
+    t2 = [t for t in all2 if t["m"]["op"] in want]
+    q = tier == "quick"
+    cap = {"C13": 7000, "C10": 3000, "C12": 3000, "C11": 2000}[pid] * (1 if q else 6)
     if len(t2) > cap:
         t2 = rng.sample(t2, cap)
-    sims = xc.sim(wd, 3, "full", 3 if tier == "quick" else 5, 1500 if tier == "quick" else 12000, 40 + seed())
+    sims = xc.sim(wd, 3, "full", 3 if q else 5, 1500 if q else 12000, 40 + seed())
     t3 = [t for t in xc.with_ids(sims["terms"], "w-") if t["d"] >= 2 and t["m"]["op"] in want]
     if len(t3) > cap // 3:
         t3 = rng.sample(t3, cap // 3)
-    return t1 + t2 + t3, [d1, d2, sims]
+    # closing actions on depth-1/2 terms
+    base = all1 + all2
+    pick = lambda ts, k: ts if len(ts) <= k else rng.sample(ts, k)  # noqa: E731
+    t4 = []
+    if pid == "C13":
+        fr = [t for t in base if t["m"]["op"] in ("div", "cond", "nmarg")]
+        t4 += closing(fr if not q else fr, "fsimp", "fs:")          # every fraction-rooted term, both tiers
+        t4 += closing([t for t in base if t["m"]["op"] == "marg"], "ssimp", "ss:")
+        t4 += closing(pick(fr, 2500 if q else 20000), "contract", "ct:")
+        t4 += closing(pick(base, 2500 if q else 20000), "rcontract", "rc:")
+    elif pid in ("C10", "C11"):
+        for k, o in enumerate([[1, 2, 3], [3, 1, 2]]):
+            t4 += closing(pick(base, 1500 if q else 15000), "canon", f"cn{k}:", {"ord": o})
+    elif pid == "C12":
+        t4 += closing(pick(base, 3000 if q else 30000), "pp", "pp:")
+    return t1 + t2 + t3 + t4, [d1, d2, sims]
 
 
 def mstr(x):
